@@ -175,8 +175,15 @@ func genCase(t *rapid.T) Case {
 		// one queue per epoch, or every buffer bound to one queue for this epoch
 		// (operations on different queues then touch disjoint buffers)
 		multi := nq > 1 && rapid.Bool().Draw(t, "several-queues")
+		if nq > 1 && e == 0 && scratch >= 0 {
+			// copies on other queues while the long dirtying kernel runs
+			multi = true
+		}
 		q0 := rapid.IntRange(0, nq-1).Draw(t, "epoch-queue")
 		nops := rapid.IntRange(1, 5).Draw(t, "ops")
+		if nq > 1 && e == 0 && scratch >= 0 {
+			nops += 4 // enough copies that some are processed while the kernel is running
+		}
 		if e == 0 && scratch >= 0 {
 			s := Step{Kind: "kernel", Q: q0, Buf: scratch, Count: c.Bufs[scratch].Size / lineSize, Shift: 4,
 				Seed: rapid.Uint32().Draw(t, "k"), WG: 256}
